@@ -147,6 +147,39 @@ def run(ctx):
     else:
         ctx.ok("COV", f"{tv.qualname} / COV / whole-vector orientation", ctx.where(tv), "scalar factor")
 
+    # ================================================================== the normalisation multiplier must not act as a fixed vector
+    ctx.clause("the mean-one constraint does not single out a direction of the plane")
+    am = repo.func(f"{FM}.add_mean_one")
+    ctx.touch(am)
+    sam = sym.summarize(repo, am.qualname, heap={T.attr(SELF, "externals_to_use"): T.seq(())})
+    ret = rules.arrnf(sam.ret())
+    Mraw = T.attr(SELF, "matrix")
+    hit = None
+    for x in T.subterms(ret[1][0] if ret[0] == "seq" else ret):
+        if x[0] == "call" and x[1] == "numpy.hstack" and x[2] and x[2][0][0] == "seq" and len(x[2][0][1]) == 2:
+            left, col = x[2][0][1]
+            raw_rows = any(y[0] == "call" and y[1] == "numpy.vstack" and y[2][0][0] == "seq" and y[2][0][1][0] == Mraw for y in T.subterms(left)) or left == Mraw
+            if raw_rows and col[0] == "col":
+                body = col[1]
+                const_over_rows = any(y[0] == "fill" and y[1] == T.num(1) and y[2] == T.idx(T.attr(Mraw, "shape"), T.num(0)) for y in T.subterms(body))
+                if const_over_rows:
+                    hit = x
+    if hit is not None:
+        ctx.violation("COV", f"{am.qualname} / COV / multiplier column of ones over the x- and y-rows of the raw force matrix", ctx.where(am),
+                      "the multiplier is appended as a column of ones over ALL junction rows of the un-squared matrix, whose rows alternate x- and "
+                      "y-components: it acts as the fixed vector (1, 1) on every junction, which does not rotate or reflect with the tissue; whenever "
+                      "the multiplier is non-zero (tissue not in exact balance) the tensions depend on the pose. The covariant form borders the normal "
+                      "equations (as add_mean_one_before does)")
+    else:
+        ctx.ok("COV", f"{am.qualname} / COV / constraint does not enter as a per-component constant on the raw rows", ctx.where(am), "no ones column over raw component rows")
+    amb = repo.func(f"{FM}.add_mean_one_before")
+    ctx.touch(amb)
+    samb = rules.arrnf(sym.summarize(repo, amb.qualname, heap={T.attr(SELF, "externals_to_use"): T.seq(())}).ret())
+    N = T.call("matmul", (T.call("transpose", (Mraw,)), Mraw))
+    okb = any(y[0] == "call" and y[1] == "numpy.hstack" and y[2][0][1][0] == N for y in T.subterms(samb))
+    ctx.check(okb, "COV", f"{amb.qualname} / COV / constraint borders the normal equations (rows indexed by unknowns, rotation invariant)", ctx.where(amb),
+              "hstack((M^T M, ones))", "add_mean_one_before no longer borders the normal equations M^T M")
+
     # ================================================================== the circle fit is similarity-equivariant
     ctx.clause("the fitted centre moves and scales with the points (objective invariant / homogeneous, start value a point)")
     dl = repo.func("forsys.virtual_edges.dlite_circle_method")
